@@ -201,7 +201,7 @@ func init() {
 	fw.Register(&fw.Prop{
 		ID:    "C10",
 		Level: "exploration",
-		Rule:  "for every command of the grammar: each required positional argument missing (every shorter prefix; empty list tails), a null bulk at each position, each integer position replaced by 8 non-integer/overflowing/fractional tokens and each float/score position by 7 non-numbers (incl. nan, 1e999), each pair list cut to odd lengths, numeric option values (LPOP count, SCAN COUNT, LIMIT, SET expiries) missing / non-numeric / non-positive, every ordered pair of SET NX|XX and of EX|PX|EXAT|PXAT in 3 letter-case variants; each followed by ECHO, a handler probe and a valid instance of the same command, and each also sent right after a valid instance of the same command; whole and 1-byte delivery. Non-trivial = distinct ill-formed request (the 1-byte re-delivery is not counted).",
+		Rule:  "for every command of the grammar: each required positional argument missing (every shorter prefix; empty list tails), a null bulk at each position, each integer position replaced by 8 non-integer/overflowing/fractional tokens and each float/score position by 7 non-numbers (incl. nan, 1e999), each pair list cut to odd lengths, numeric option values (LPOP count, SCAN COUNT, LIMIT, SET expiries) missing / non-numeric / non-positive (SET and SETEX expiries: 0, -1 and negative numbers around every place where a conversion to 32 bits, to nanoseconds or to a duration wraps, down to MinInt64), every ordered pair of SET NX|XX and of EX|PX|EXAT|PXAT in 3 letter-case variants; each followed by ECHO, a handler probe and a valid instance of the same command, and each also sent right after a valid instance of the same command; whole and 1-byte delivery. Non-trivial = distinct ill-formed request (the 1-byte re-delivery is not counted).",
 		Assumptions: []string{
 			"forms Redis rejects but the statement does not mention (surplus arguments, unknown option words, KEEPTTL with an expiry, '+1') carry no expectation and are not generated",
 		},
